@@ -1185,7 +1185,7 @@ def standin_recursive_siblings(tier, seed):
             for va in core[:5]:
                 for vb in core[:5]:
                     one(REC_SPECS[0], sname, va, vb)
-    for _ in range(1500 if thorough else 120):
+    for _ in range(1500 if thorough else 90):
         sp = rnd.choice(REC_SPECS)
         va, vb = (rnd.choice(core), rnd.choice(core)) if rnd.random() < 0.4 else (rnd.choice(REC_VARIANTS), rnd.choice(REC_VARIANTS))
         one(sp, rnd.choice(names_of[sp.id]), va, vb)
@@ -1198,7 +1198,7 @@ def standin_recursive_siblings(tier, seed):
                  'with a wrong element, a scalar, a list, a string); constraint inline or behind a second name, value literal or let-bound; expected: the statement\'s exemplar rule applied '
                  'recursively with the name replaced by its definition [%d placements left out: the list rule is ambiguous for an alternation]'
                  % (len(REC_SPECS), max(len(v) for v in names_of.values()),
-                    'all of the first 7 variants everywhere, all 16 x 16 in 7 placements for 2 constraints, 1500 seeded' if thorough else 'all of the first 5 variants for `kids` in 7 placements + 120 seeded',
+                    'all of the first 7 variants everywhere, all 16 x 16 in 7 placements for 2 constraints, 1500 seeded' if thorough else 'all of the first 5 variants for `kids` in 7 placements + 90 seeded',
                     len(REC_VARIANTS), ambiguous[0]))
 
 
@@ -1273,7 +1273,7 @@ def standin_nested_tuple_levels(tier, seed):
             for l1 in lv_q:
                 for ln in LINKS[1:4]:
                     one([l0, l1], [ln])
-        nrand = 100
+        nrand = 80
     if True:
         for l0 in rel5:
             for l1 in rel5:
@@ -1290,7 +1290,7 @@ def standin_nested_tuple_levels(tier, seed):
                  'the same / more fields than the exemplar, a shared field of another type, or incomparable field sets; exemplar inline / named / let-bound, value literal or computed'
                  % ('all 72 x 72 two-level pairs joined by a tuple, all 14 x 14 pairs of a reduced alphabet for the 6 other joins, all 14^3 three-level chains of it, 3000 seeded chains of depth 2..3'
                     if thorough else 'all 14 x 14 two-level pairs of a reduced alphabet (exemplar {} / {p, q}; value {}, {p}, {p, q}, {p, q, z}, {p, z}, {p wrong}, {p wrong, q, z}) joined by a tuple, '
-                    '3 x 14 pairs for each of the 3 list joins, 100 seeded chains of depth 2..3 over the full alphabet and all joins'))
+                    '3 x 14 pairs for each of the 3 list joins, 80 seeded chains of depth 2..3 over the full alphabet and all joins'))
 
 
 STANDINS = [standin_exemplar_shapes, standin_range_bounds, standin_alternations, standin_recursive_documented, standin_named_reach, standin_chained_lets,
